@@ -342,20 +342,23 @@ structure Grid where
 
 namespace Grid
 def L (g : Grid) : ℚ := g.n * g.side
-/-- `int(x / side)`, the index `position_to_cell` computes in this direction -/
-def idx (g : Grid) (x : ℚ) : ℤ := Ops.rat.toInt (x / g.side)
+/-- `_cell_identifier(x) = min(int(x / side), n - 1)`, the index `position_to_cell` computes in this direction -/
+def idx (g : Grid) (x : ℚ) : ℤ := min (Ops.rat.toInt (x / g.side)) ((g.n : ℤ) - 1)
 /-- lower edge of cell `i` (exact reading of `cell_min`) -/
 def cmin (g : Grid) (i : ℕ) : ℚ := i * g.side
 
-theorem idx_eq (g : Grid) {x : ℚ} {i : ℕ} (h0 : g.cmin i ≤ x) (h1 : x < g.cmin (i + 1)) : g.idx x = i := by
+theorem idx_eq (g : Grid) {x : ℚ} {i : ℕ} (hi : i < g.n) (h0 : g.cmin i ≤ x) (h1 : x < g.cmin (i + 1)) :
+    g.idx x = i := by
   have hs := g.hside
   simp only [cmin, Nat.cast_add, Nat.cast_one] at h0 h1
   have h0' : (i : ℚ) ≤ x / g.side := by rw [le_div_iff₀ hs]; exact h0
   have h1' : x / g.side < (i : ℚ) + 1 := by rw [div_lt_iff₀ hs]; exact h1
   have hnn : 0 ≤ x / g.side := le_trans (by positivity) h0'
-  simp only [idx, rat_toInt, trunc_nonneg hnn]
-  rw [Int.floor_eq_iff]
-  exact ⟨by exact_mod_cast h0', by exact_mod_cast h1'⟩
+  have hfl : ⌊x / g.side⌋ = (i : ℤ) := by
+    rw [Int.floor_eq_iff]
+    exact ⟨by exact_mod_cast h0', by exact_mod_cast h1'⟩
+  simp only [idx, rat_toInt, trunc_nonneg hnn, hfl]
+  omega
 end Grid
 
 end JF.C11
